@@ -390,3 +390,50 @@ package types
 //@   modifies everything
 //@   assert@call(Bytes,0): $arg0 == tx.ReqAmt                                                                  [C03,C13]
 //@   assert@call(Encode,0): $arg0 == w                                                                         [C03]
+
+// ---- stored form of the governance parameters (C15: the active parameters equal those the query decodes)
+//@ func (r *GovParams) fromProto(pm)
+//@   nopanic
+//@   requires r != nil && pm != nil
+//@   modifies r.version, r.maxValidatorCnt, r.lazyRewardBlocks, r.lazyApplyingBlocks, r.minTrxGas, r.maxTrxGas, r.maxBlockGas, r.minVotingPeriodBlocks, r.maxVotingPeriodBlocks, r.minSelfStakeRatio, r.maxUpdatableStakeRatio, r.maxIndividualStakeRatio, r.slashRatio, r.signedBlocksWindow, r.minSignedBlocks, r.minValidatorStake, r.minDelegatorStake, r.rewardPerPower, r.gasPrice
+//@   allocates uint256.Int
+//@   ensures r.version == pm.Version   [C15]
+//@   ensures r.maxValidatorCnt == pm.MaxValidatorCnt   [C15]
+//@   ensures r.lazyRewardBlocks == pm.LazyRewardBlocks   [C15]
+//@   ensures r.lazyApplyingBlocks == pm.LazyApplyingBlocks   [C15]
+//@   ensures r.minTrxGas == pm.MinTrxGas   [C15]
+//@   ensures r.maxTrxGas == pm.MaxTrxGas   [C15]
+//@   ensures r.maxBlockGas == pm.MaxBlockGas   [C15]
+//@   ensures r.minVotingPeriodBlocks == pm.MinVotingPeriodBlocks   [C15]
+//@   ensures r.maxVotingPeriodBlocks == pm.MaxVotingPeriodBlocks   [C15]
+//@   ensures r.minSelfStakeRatio == pm.MinSelfStakeRatio   [C15]
+//@   ensures r.maxUpdatableStakeRatio == pm.MaxUpdatableStakeRatio   [C15]
+//@   ensures r.maxIndividualStakeRatio == pm.MaxIndividualStakeRatio   [C15]
+//@   ensures r.slashRatio == pm.SlashRatio   [C15]
+//@   ensures r.signedBlocksWindow == pm.SignedBlocksWindow   [C15]
+//@   ensures r.minSignedBlocks == pm.MinSignedBlocks   [C15]
+//@   ensures r.minValidatorStake != nil && fresh(r.minValidatorStake)   [C15]
+//@   ensures r.minDelegatorStake != nil && fresh(r.minDelegatorStake)   [C15]
+//@   ensures r.rewardPerPower != nil && fresh(r.rewardPerPower)   [C15]
+//@   ensures r.gasPrice != nil && fresh(r.gasPrice)   [C15]
+
+//@ func (r *GovParams) toProto()
+//@   nopanic
+//@   requires r != nil && r.minValidatorStake != nil && r.minDelegatorStake != nil && r.rewardPerPower != nil && r.gasPrice != nil
+//@   allocates GovParamsProto
+//@   ensures result != nil && fresh(result)
+//@   ensures result.Version == r.version   [C15]
+//@   ensures result.MaxValidatorCnt == r.maxValidatorCnt   [C15]
+//@   ensures result.LazyRewardBlocks == r.lazyRewardBlocks   [C15]
+//@   ensures result.LazyApplyingBlocks == r.lazyApplyingBlocks   [C15]
+//@   ensures result.MinTrxGas == r.minTrxGas   [C15]
+//@   ensures result.MaxTrxGas == r.maxTrxGas   [C15]
+//@   ensures result.MaxBlockGas == r.maxBlockGas   [C15]
+//@   ensures result.MinVotingPeriodBlocks == r.minVotingPeriodBlocks   [C15]
+//@   ensures result.MaxVotingPeriodBlocks == r.maxVotingPeriodBlocks   [C15]
+//@   ensures result.MinSelfStakeRatio == r.minSelfStakeRatio   [C15]
+//@   ensures result.MaxUpdatableStakeRatio == r.maxUpdatableStakeRatio   [C15]
+//@   ensures result.MaxIndividualStakeRatio == r.maxIndividualStakeRatio   [C15]
+//@   ensures result.SlashRatio == r.slashRatio   [C15]
+//@   ensures result.SignedBlocksWindow == r.signedBlocksWindow   [C15]
+//@   ensures result.MinSignedBlocks == r.minSignedBlocks   [C15]
